@@ -472,6 +472,14 @@ def run(prog: Program, res: Result) -> None:  # noqa: PLR0912, PLR0915
                     res.fail("C15.R2d", file=ext.file, line=a.lineno, qualname=ext.qualname, construct=f"{ext.qualname}: {a.value.value} reported for a context argument that is not a string literal", message=f"{ext.qualname} falls back to `{a.value.value}` when the context argument is present but not a string literal (a variable); the render then asks the catalog for {'pgettext' if a.value.value == 'gettext' else 'npgettext'} with the variable's value: a lookup whose family and context extraction does not report", what=what)
                 else:
                     res.ok("C15.R2d", site, what, "guarded by absence only")
+    # the operand the family is selected on is the one the template wrote: no rebinding of the context parameter in a run-time selector
+    for c, sel, ext, is_tag in pairs:
+        ctx_params = [p_ for p_ in sel.params() if "context" in p_ and p_ not in ("context",) and "count" not in p_]
+        for p_ in ctx_params:
+            for a in ast.walk(sel.node):
+                if isinstance(a, ast.Assign) and any(isinstance(t, ast.Name) and t.id == p_ for t in a.targets) and not (isinstance(a.value, ast.Call) and (dotted(a.value.func) or "").split(".")[-1] in ("to_liquid_string", "str", "escape", "Markup")):
+                    n_b += 1
+                    res.fail("C15.R2b", file=sel.file, line=a.lineno, qualname=sel.qualname, construct=f"{sel.qualname}: the context operand `{p_}` is rebound before the lookup", message=f"{sel.qualname} rebinds `{p_}` (`{norm(a, 60)}`) before it selects the gettext family: the extractor decides from the operand as written (a literal '' is a context for it), so the render asks for another family than the one reported", what=f"{sel.qualname}: the context operand reaches the family selection as written")
     res.floor("C15.R2b", "context-family branches of extractors", n_b, 4)
     res.floor("C15.R2c", "silent extractor conditions on the tag", n_c, 1)
     res.floor("C15.R2d", "context-free branches of tag extractors", n_d, 2)
@@ -534,6 +542,11 @@ def run(prog: Program, res: Result) -> None:  # noqa: PLR0912, PLR0915
                     problems.append("no staleness test (`_comments[-1][0] < lineno - 1`) before the yield in the same iteration")
             else:
                 problems.append("yield not directly inside a loop body")
+            # every message the extractor finds is reported, with its own line: nothing in the iteration can skip the yield
+            if loop is not None:
+                skips = [x for b in loop.body for x in ast.walk(b) if isinstance(x, (ast.Continue, ast.Break)) or (isinstance(x, ast.Return) and x is not y)]
+                if skips:
+                    problems.append(f"the iteration can leave before the yield (`{norm(skips[0], 30)}` at line {skips[0].lineno}): a message that was found is not reported (e.g. a de-duplication keyed without the line number drops later occurrences of the same text)")
             site = f"{f.file}:{y.lineno} {f.qualname}"
             what = f"{f.qualname}: comments attached per message"
             if problems:
